@@ -1,0 +1,30 @@
+//go:build verif
+
+package transform
+
+import (
+	"reflect"
+	"runtime"
+)
+
+// Thin exported wrappers for the determinism check (property C02). Compiled only with the `verif` build tag.
+
+func verifFuncName(f any) string { return runtime.FuncForPC(reflect.ValueOf(f).Pointer()).Name() }
+
+// VerifTransformers returns the canonicalisation rule table as pattern → handler function name.
+func VerifTransformers() map[string]string {
+	out := map[string]string{}
+	for k, v := range transformers {
+		out[string(k)] = verifFuncName(v)
+	}
+	return out
+}
+
+// VerifDefaultValues returns the default-value rule table as pattern → handler function name.
+func VerifDefaultValues() map[string]string {
+	out := map[string]string{}
+	for k, v := range defaultValues {
+		out[string(k)] = verifFuncName(v)
+	}
+	return out
+}
